@@ -364,11 +364,15 @@ def pdu_tags(ctx, rep, rule):
                     return d
                 return None
             blocks, _ = cells.feasible(enc, prov, ev)
+            # the identifier may be selected per arm and pushed once after the match: trace it through the arm's blocks only
+            parm = flow.Prov(enc, only_blocks=blocks)
             tagsv = []
             for bi in sorted(blocks):
                 t = enc.blocks[bi].term
                 if t and t["k"] == "call" and (callee_path(t) or "").endswith("Buffer::push_tag_len"):
-                    tagsv.append(prov.operand(t["args"][1]))
+                    tt = parm.operand(t["args"][1])
+                    cv = cells.eval_term(tt, lambda x: None)
+                    tagsv.append(("const", cv) if isinstance(cv, int) else tt)
             key = "SnmpPdu::push_ber|" + vn
             if vn in expect:
                 ok = tagsv == [("const", expect[vn])]
